@@ -168,10 +168,10 @@ type c06Sig struct {
 	pub  []byte
 	ts   time.Time
 	// explicit message ('O')
-	chain  string
-	h      int64
-	r      int32
-	bid    types.BlockID
+	chain string
+	h     int64
+	r     int32
+	bid   types.BlockID
 }
 
 type c06Commit struct {
@@ -426,6 +426,6 @@ func (p *c06EvPool) PendingEvidence(maxBytes int64) ([]types.Evidence, int64) {
 	}
 	return out, total
 }
-func (p *c06EvPool) AddEvidence(types.Evidence) error        { return nil }
-func (p *c06EvPool) Update(State, types.EvidenceList)        {}
-func (p *c06EvPool) CheckEvidence(types.EvidenceList) error  { return nil }
+func (p *c06EvPool) AddEvidence(types.Evidence) error       { return nil }
+func (p *c06EvPool) Update(State, types.EvidenceList)       {}
+func (p *c06EvPool) CheckEvidence(types.EvidenceList) error { return nil }
